@@ -15,6 +15,7 @@ import (
 	"runtime/debug"
 	"strings"
 	"sync"
+	"sync/atomic"
 	"time"
 
 	"mellium.im/xmlstream"
@@ -135,6 +136,7 @@ type envT struct {
 	OK      bool     // an oracle's answer where the case needs one
 	Full    bool     // the session's local address is a full JID
 	Hist    []string // application-side history (constructors of the model's aop)
+	Match   bool     // ibb: the <open/> is for the session Expect was called for
 }
 
 type tapLog struct {
@@ -204,6 +206,9 @@ func (w *world) run(comp string, start *xml.StartElement, typ string, ok bool, r
 	toks, term := preread(r)
 	v := &Inv{Comp: comp, Toks: toks, Clean: term == io.EOF, Env: w.envFor(comp, typ)}
 	v.Env.OK = ok
+	if comp == "HIbbIQ" && start != nil {
+		v.Env.Match = w.expectedOpen(start)
+	}
 	if start != nil {
 		v.Start = start.Copy()
 	}
@@ -218,8 +223,64 @@ func (w *world) run(comp string, start *xml.StartElement, typ string, ok bool, r
 		w.log.end(v, "err")
 	default:
 		w.log.end(v, "ok")
+		// what the handler did to the state it keeps between stanzas
+		switch comp {
+		case "HReceipts":
+			if receiptFor(toks) == "r1" {
+				w.note("ARSignal") // ignored by the model when no message awaits that receipt
+			}
+		case "HIbbIQ":
+			w.stMu.Lock()
+			lstOpen := w.lstOpen
+			w.stMu.Unlock()
+			if v.Env.Match && ok && lstOpen && start != nil && start.Name.Local == "open" {
+				w.note("AEOpen")
+			}
+		}
 	}
 	return err
+}
+
+// receiptFor returns the id of the receipt the handler acts on: the first
+// child element of the message named received or request decides.
+func receiptFor(toks []xml.Token) string {
+	depth := 0
+	for _, t := range toks {
+		switch x := t.(type) {
+		case xml.StartElement:
+			depth++
+			if depth == 2 {
+				switch x.Name.Local {
+				case "request":
+					return ""
+				case "received":
+					for _, a := range x.Attr {
+						if a.Name.Local == "id" {
+							return a.Value
+						}
+					}
+					return ""
+				}
+			}
+		case xml.EndElement:
+			depth--
+		}
+	}
+	return ""
+}
+
+// expectedOpen: the <open/> is for the session (from peerJID, sid s1) the
+// harness's Expect calls wait for.
+func (w *world) expectedOpen(start *xml.StartElement) bool {
+	if start.Name.Local != "open" {
+		return false
+	}
+	for _, a := range start.Attr {
+		if a.Name.Local == "sid" {
+			return a.Value == "s1" && w.lastFrom == peerJID
+		}
+	}
+	return false
 }
 
 type msgTap struct {
@@ -262,8 +323,12 @@ type iqTap struct {
 }
 
 func (t iqTap) HandleIQ(iq stanza.IQ, r xmlstream.TokenReadEncoder, start *xml.StartElement) error {
+	if strings.HasPrefix(iq.ID, "bar-") {
+		return t.h.HandleIQ(iq, r, start) // the harness's own barrier ping: not a case
+	}
 	// ibb looks its listener up under the address the request is sent to
 	toLocal := iq.To.String() == t.w.sess.LocalAddr().String()
+	t.w.lastFrom = iq.From.String()
 	return t.w.run(t.comp, start, string(iq.Type), toLocal, r, func(rr xmlstream.TokenReadEncoder) error { return t.h.HandleIQ(iq, rr, start) })
 }
 
@@ -305,6 +370,9 @@ type world struct {
 	hit        *history.Iter
 	rcptCancel context.CancelFunc
 	nbar       int
+	lastFrom   string
+	gate       *gatedConn
+	expLive    int32 // Expect calls that have not returned
 
 	done       chan struct{}
 	servePanic string
@@ -323,13 +391,16 @@ func (w *world) envFor(comp, typ string) envT {
 	w.stMu.Lock()
 	defer w.stMu.Unlock()
 	ready := true
+	tracked := append([]string(nil), w.histIDs...)
 	switch comp {
+	case "HReceipts":
+		tracked = []string{"r1"} // the id the harness's SendMessage calls use
 	case "HHistory":
 		ready = w.histReady || len(w.histIDs) == 0
 	case "HIbbIQ":
 		ready = !w.ibbNoAccept
 	}
-	return envT{Tracked: append([]string(nil), w.histIDs...), Ready: ready, Type: typ, OK: true,
+	return envT{Tracked: tracked, Ready: ready, Type: typ, OK: true,
 		Full: w.local.Resourcepart() != "", Hist: append([]string(nil), w.ahist...)}
 }
 
@@ -427,7 +498,8 @@ func newWorld(tap bool, bare bool) (*world, error) {
 	if regPanic != "" {
 		return nil, fmt.Errorf("registration panicked: %s", regPanic)
 	}
-	s, err := hx.NewReadySession(w.pipe.Sess, contentNS, 0, remoteJID, w.local) // (location, origin): LocalAddr() is w.local
+	w.gate = &gatedConn{Conn: w.pipe.Sess}
+	s, err := hx.NewReadySession(w.gate, contentNS, 0, remoteJID, w.local) // (location, origin): LocalAddr() is w.local
 	if err != nil {
 		return nil, err
 	}
@@ -453,8 +525,49 @@ func (w *world) waitServe(d time.Duration) bool {
 	}
 }
 
+// gatedConn lets the harness hold back what the session writes (the peer stops
+// reading for a while): writers park in Write until the gate is released.
+type gatedConn struct {
+	net.Conn
+	mu      sync.Mutex
+	hold    chan struct{}
+	waiting int32
+}
+
+func (g *gatedConn) Write(b []byte) (int, error) {
+	g.mu.Lock()
+	h := g.hold
+	g.mu.Unlock()
+	if h != nil {
+		atomic.AddInt32(&g.waiting, 1)
+		<-h
+		atomic.AddInt32(&g.waiting, -1)
+	}
+	return g.Conn.Write(b)
+}
+
+func (g *gatedConn) holdWrites() {
+	g.mu.Lock()
+	if g.hold == nil {
+		g.hold = make(chan struct{})
+	}
+	g.mu.Unlock()
+}
+
+func (g *gatedConn) release() {
+	g.mu.Lock()
+	if g.hold != nil {
+		close(g.hold)
+		g.hold = nil
+	}
+	g.mu.Unlock()
+}
+
 func (w *world) close() {
 	w.stop()
+	if w.gate != nil {
+		w.gate.release()
+	}
 	w.pipe.Peer.Close()
 	w.pipe.Sess.Close()
 }
